@@ -542,8 +542,22 @@ def run(ck: core.Check):
             cur = best.get(key)
             if cur is None or len(json.dumps(r["spec"])) < len(json.dumps(cur["spec"])):
                 best[key] = r
-    for key, r in best.items():
-        ck.failure(key, f"build returned a model that fails: {r['bad'][:3]}", {"spec": r["spec"]})
+    for key, r in list(best.items())[:6]:
+        spec, bad = r["spec"], r["bad"]
+
+        def same_failure(s, key=key):
+            st, m = L.build_spec(s)
+            return st == "ok" and classify(L.judge_model(m, custom_keys=custom_keys(s), want_ort=not r.get("ort_skipped"))) == key
+
+        try:  # shrink the witness (only on the failure path; a crash of a third-party judge ends the shrink)
+            small = L.shrink(spec, same_failure, budget=120)
+            st, m = L.build_spec(small)
+            bad2 = L.judge_model(m, custom_keys=custom_keys(small), want_ort=not r.get("ort_skipped")) if st == "ok" else []
+            if bad2 and classify(bad2) == key:
+                spec, bad = small, bad2
+        except Exception:  # noqa: BLE001
+            pass
+        ck.failure(key, f"build returned a model that fails: {bad[:3]}", {"spec": spec})
     ck.sample({"spec": results[0]["spec"], "status": results[0]["status"]}, 2)
 
     # behavioural cross-check of the generated "returned model is the checked one" facts
